@@ -1,6 +1,7 @@
 package rules
 
 import (
+	"go/token"
 	"go/types"
 	"strings"
 
@@ -311,5 +312,224 @@ func c05R12(c *Ctx) {
 	}
 	if n == 0 {
 		c.R.Fail(r, "findTo predicates", c.Pos(findTo.Pos()), "no function literal handed to Batch.findTo indexes with its parameter (shape changed)")
+	}
+}
+
+// c13R13 (seeded R6e-m2): across a live reconfigure the old and the new runnable share the *Instance; its running flag
+// must stay set while either of them runs. The flag is therefore released only where a runnable is torn down for good
+// (RunnableProcessor.Teardown) and where MakeRunnableProcessor gives up — not by a failed Open of the new runnable.
+func c13R13(c *Ctx) {
+	r := c.R.Rule("R13", "K2 closed writer table of the processor's running reservation: Instance.running is set/cleared (Store, Swap, CompareAndSwap) only in processor.Service.MakeRunnableProcessor and RunnableProcessor.Teardown — a failed Open of a swap's new runnable must not release the instance the old runnable still runs (Update/Delete would be accepted under the live node)", 3)
+	f := c.Field(r, pProc, "Instance", "running")
+	p := c.W.Pkg(pProc)
+	if f == nil || p == nil || c.W.SSA[p.Types] == nil {
+		return
+	}
+	allowedFn := map[*ssa.Function]bool{}
+	for _, name := range []string{"(*Service).MakeRunnableProcessor", "(*RunnableProcessor).Teardown"} {
+		if g := c.SSA(r, pProc, name); g != nil {
+			allowedFn[g] = true
+		}
+	}
+	all := c.W.AllFuncs(c.W.SSA[p.Types])
+	// an unexported helper that is only ever called, and only by tabled writers
+	helperOfAllowed := func(h *ssa.Function) bool {
+		if h.Object() == nil || h.Object().Exported() {
+			return false
+		}
+		callers := 0
+		for _, g := range all {
+			for _, b := range g.Blocks {
+				for _, in := range b.Instrs {
+					for _, op := range in.Operands(nil) {
+						if *op == ssa.Value(h) {
+							ci, isCall := in.(ssa.CallInstruction)
+							rg := g
+							for rg.Parent() != nil {
+								rg = rg.Parent()
+							}
+							if !isCall || ci.Common().StaticCallee() != h || !allowedFn[rg] {
+								return false
+							}
+							callers++
+						}
+					}
+				}
+			}
+		}
+		return callers > 0
+	}
+	n := 0
+	for _, fn := range all {
+		root := fn
+		for root.Parent() != nil {
+			root = root.Parent()
+		}
+		for _, m := range []string{"Store", "Swap", "CompareAndSwap"} {
+			for _, call := range atomicCalls(fn, f, m) {
+				n++
+				where := kit.FuncKey(root)
+				ok := allowedFn[root] || helperOfAllowed(root)
+				c.R.Check(ok, r, "Instance.running."+m+" in "+where, c.Pos(call.Pos()), "tabled writer", "Instance.running is written in "+where+", which is not in the closed writer table {MakeRunnableProcessor, RunnableProcessor.Teardown}: the reservation is shared by the old and the new runnable of a live reconfigure — releasing it anywhere else lets Update/Delete through while the processor is running", false)
+			}
+		}
+	}
+	if n == 0 {
+		c.R.Fail(r, "Instance.running writers", "pkg/processor", "no write of Instance.running found (shape changed)")
+	}
+}
+
+// c14R13 (seeded R6b-m2): the pipeline name set is updated delete-first: once a name has been put into the set, nothing
+// on the way to the next store write or to the return removes an entry again — unless behind a test that the two names
+// differ. An insert followed by an unguarded delete loses the name whenever old and new name are equal.
+func c14R13(c *Ctx) {
+	r := c.R.Rule("R13", "K3 the pipeline name set is updated delete-first (pipeline.Service): after an insert into instanceNames no delete on the set follows before the next store write or the return, unless it is guarded by a test that two names differ — insert-then-delete drops the name whenever the old and the new name are the same", 3)
+	f := c.Field(r, pPipe, "Service", "instanceNames")
+	p := c.W.Pkg(pPipe)
+	if f == nil || p == nil || c.W.SSA[p.Types] == nil {
+		return
+	}
+	storeSet := kit.FuncSet{}
+	for _, m := range []string{"(*Store).Set", "(*Store).Delete"} {
+		if g := c.Fn(r, pPipe, m); g != nil {
+			storeSet[g] = true
+		}
+	}
+	isNames := func(v ssa.Value) bool { return kit.IsFieldLoad(v, f) }
+	isDelete := func(in ssa.Instruction) bool {
+		call, ok := in.(*ssa.Call)
+		if !ok {
+			return false
+		}
+		b, ok := call.Call.Value.(*ssa.Builtin)
+		return ok && b.Name() == "delete" && len(call.Call.Args) == 2 && isNames(call.Call.Args[0])
+	}
+	n := 0
+	for _, fn := range c.W.AllFuncs(c.W.SSA[p.Types]) {
+		// edges on which two strings are known to differ
+		differ := map[kit.Edge]bool{}
+		for _, b := range fn.Blocks {
+			for _, in := range b.Instrs {
+				bo, ok := in.(*ssa.BinOp)
+				if !ok || (bo.Op != token.EQL && bo.Op != token.NEQ) {
+					continue
+				}
+				if bt, ok := bo.X.Type().Underlying().(*types.Basic); !ok || bt.Info()&types.IsString == 0 {
+					continue
+				}
+				if _, isC := bo.X.(*ssa.Const); isC {
+					continue
+				}
+				if _, isC := bo.Y.(*ssa.Const); isC {
+					continue
+				}
+				for _, e := range kit.CondEdges(bo, bo.Op == token.NEQ) {
+					differ[e] = true
+				}
+			}
+		}
+		guarded := func(b *ssa.BasicBlock) bool {
+			for e := range differ {
+				if e.To == b || e.To.Dominates(b) {
+					return true
+				}
+			}
+			return false
+		}
+		for _, b := range fn.Blocks {
+			for i, in := range b.Instrs {
+				mu, ok := in.(*ssa.MapUpdate)
+				if !ok || !isNames(mu.Map) {
+					continue
+				}
+				n++
+				// forward walk from the insert to the next store write / return
+				var bad ssa.Instruction
+				seen := map[*ssa.BasicBlock]bool{}
+				var walk func(blk *ssa.BasicBlock, from int)
+				walk = func(blk *ssa.BasicBlock, from int) {
+					for j := from; j < len(blk.Instrs) && bad == nil; j++ {
+						x := blk.Instrs[j]
+						if ci, ok := x.(ssa.CallInstruction); ok && storeSet.Has(kit.CalleeOf(ci.Common())) {
+							return
+						}
+						if isDelete(x) && !guarded(blk) {
+							bad = x
+							return
+						}
+					}
+					for _, s := range blk.Succs {
+						if !seen[s] && bad == nil {
+							seen[s] = true
+							walk(s, 0)
+						}
+					}
+				}
+				walk(b, i+1)
+				key := kit.FuncKey(fn) + ": no delete on the name set after the insert"
+				if bad == nil {
+					c.R.Pass(r, key, c.Pos(posOf(mu)), "delete-first", true)
+				} else {
+					c.R.Fail(r, key, c.Pos(posOf(bad)), "a name is deleted from instanceNames after one was inserted, with no test that the two names differ: when the old and the new name are equal (an update that keeps the name, or its rollback) the name is gone from the set — a second pipeline with that name can be created, which a restarted server would refuse")
+				}
+			}
+		}
+	}
+	if n == 0 {
+		c.R.Fail(r, "instanceNames inserts", "pkg/pipeline", "no insert into Service.instanceNames found (shape changed)")
+	}
+}
+
+// c16R13 (seeded R6c-m2): whatever in-place apply gives up with — restart fallback or error — it first swaps back the
+// processors it has already swapped live: every rollbackInPlace call of applyInPlace is handed the list that the swap
+// loop appends to.
+func c16R13(c *Ctx) {
+	r := c.R.Rule("R13", "K6 a refused or failed in-place apply leaves the running pipeline unchanged: every rollbackInPlace call in applyInPlace passes the accumulated list of processors already swapped live (a value that append grows in the swap loop), never nil/a constant", 2)
+	fn := c.SSA(r, pProv, "(*Service).applyInPlace")
+	rb := c.Fn(r, pProv, "(*Service).rollbackInPlace")
+	if fn == nil || rb == nil {
+		return
+	}
+	calls := kit.CallsToDeep(fn, Set(rb))
+	if len(calls) == 0 {
+		c.R.Fail(r, "applyInPlace: rolls back through rollbackInPlace", c.Pos(fn.Pos()), "no rollbackInPlace call found (shape changed)")
+		return
+	}
+	var grown func(v ssa.Value, d int) bool // v is (a phi/cell over) the result of an append
+	grown = func(v ssa.Value, d int) bool {
+		if v == nil || d > 6 {
+			return false
+		}
+		switch x := v.(type) {
+		case *ssa.Call:
+			if b, ok := x.Call.Value.(*ssa.Builtin); ok && b.Name() == "append" {
+				return true
+			}
+		case *ssa.Phi:
+			for _, e := range x.Edges {
+				if grown(e, d+1) {
+					return true
+				}
+			}
+		case *ssa.UnOp:
+			if x.Op == token.MUL {
+				// a local cell (captured or spilled): some store into it is an append result
+				if refs := x.X.Referrers(); refs != nil {
+					for _, ref := range *refs {
+						if st, ok := ref.(*ssa.Store); ok && st.Addr == x.X && grown(st.Val, d+1) {
+							return true
+						}
+					}
+				}
+			}
+		case *ssa.Slice:
+			return grown(x.X, d+1)
+		}
+		return false
+	}
+	for _, call := range calls {
+		args := call.Common().Args
+		last := args[len(args)-1]
+		c.R.Check(grown(last, 0), r, "applyInPlace: rollbackInPlace gets the processors already swapped", c.Pos(call.Pos()), "the swapped list", "rollbackInPlace is called with a list that is not the one the swap loop appends to (nil/constant): the store is put back to the old configuration but the processors already swapped live keep running the new one — a refused or failed apply leaves the running pipeline changed", false)
 	}
 }
